@@ -212,7 +212,9 @@ def run(res, tier, seed, replay_script=None):
                     emptied = True
                     stats["emptied"] = stats.get("emptied", 0) + 1
                     continue
-                if kind == "hang" or kind.startswith("crash") or kind.startswith("other") or (kind == "runtime_error") or (kind == "driver" and "wdump" in cmd):
+                if kind == "hang":
+                    stats["slow_calls"] = stats.get("slow_calls", 0) + 1      # running time is not part of the statement
+                elif kind.startswith("crash") or kind.startswith("other") or (kind == "runtime_error") or (kind == "driver" and "wdump" in cmd):
                     stats["crashes"] += 1
                     key = "treewalk-%s:%s" % ("no-return" if kind == "hang" else ("crash" if kind.startswith("crash") else "unexpected-exception"), cmd.split()[0] if cmd else "?")
                     if key not in seen_exc:
@@ -403,7 +405,9 @@ def run_diff(res, tier, seed, replay_script=None):
                     emptied = True
                     stats["emptied"] = stats.get("emptied", 0) + 1
                     continue
-                if kind == "hang" or kind.startswith("crash") or kind.startswith("other") or (kind == "runtime_error") or (kind == "driver" and "wddump" in cmd):
+                if kind == "hang":
+                    stats["slow_calls"] = stats.get("slow_calls", 0) + 1      # running time is not part of the statement
+                elif kind.startswith("crash") or kind.startswith("other") or (kind == "runtime_error") or (kind == "driver" and "wddump" in cmd):
                     stats["crashes"] += 1
                     key = "treewalk-diff-%s:%s" % ("no-return" if kind == "hang" else ("crash" if kind.startswith("crash") else "unexpected-exception"), cmd.split()[0] if cmd else "?")
                     if key not in seen_exc:
